@@ -93,6 +93,8 @@ type Byz struct {
 	cmu      sync.Mutex
 	counters map[string]int
 	Relayed  atomic.Int64 // relays received from the victim
+	// Activity, if set, is told about every sync RPC the peer is asked
+	Activity *Activity
 	// everything the peer was sent by relay RPCs (bounded)
 	rmu         sync.Mutex
 	relHeaders  []types.BlockHeader
@@ -316,6 +318,7 @@ func (b *Byz) handle(s *gateway.Stream, conn *flushConn) {
 			return
 		}
 		b.Count("recv:SendHeaders", 1)
+		b.Activity.Act()
 		var rep Reply
 		if b.OnSendHeaders != nil {
 			rep = b.OnSendHeaders(b, r)
@@ -328,6 +331,7 @@ func (b *Byz) handle(s *gateway.Stream, conn *flushConn) {
 			return
 		}
 		b.Count("recv:SendV2Blocks", 1)
+		b.Activity.Act()
 		var rep Reply
 		if b.OnSendV2Blocks != nil {
 			rep = b.OnSendV2Blocks(b, r)
@@ -340,6 +344,7 @@ func (b *Byz) handle(s *gateway.Stream, conn *flushConn) {
 			return
 		}
 		b.Count("recv:SendCheckpoint", 1)
+		b.Activity.Act()
 		var rep Reply
 		if b.OnSendCheckpoint != nil {
 			rep = b.OnSendCheckpoint(b, r)
@@ -352,6 +357,7 @@ func (b *Byz) handle(s *gateway.Stream, conn *flushConn) {
 			return
 		}
 		b.Count("recv:SendTransactions", 1)
+		b.Activity.Act()
 		var rep Reply
 		if b.OnSendTransactions != nil {
 			rep = b.OnSendTransactions(b, r)
